@@ -528,6 +528,20 @@ class Program:
             out.insert(0, base)
         return out
 
+    @staticmethod
+    def shadowed(f, name: str) -> bool:
+        """`name`, used in function f, is a parameter of f or of a function enclosing it: a call through it is a call of
+        whatever the caller passed (a callback), never of a package function that happens to have the same name"""
+        g = f
+        while g is not None:
+            try:
+                if name in g.params():
+                    return True
+            except Exception:
+                pass
+            g = g.parent
+        return False
+
     def resolve_name(self, mod: str, name: str):
         """Resolve a plain name used in `mod` to a package function / class, else None."""
         if name in self.classes and (self.classes[name].module == mod or name in self.imports.get(mod, {})):
